@@ -103,6 +103,15 @@ def path_strings(maxlen: int, canary: Path, real: dict) -> list[str]:
     out += ["..\\..\\outside", "x\\..\\..\\outside\\shards_list.json"]
     out += [a.replace("/outside/", "/outside/./") for a in absolute[:2]]
     out += [a.replace("/outside/", "/root/../outside/") for a in absolute[:2]]
+    # siblings of the root whose NAME starts with the root's name (a
+    # containment test on strings instead of path components lets them in);
+    # relative to the root and relative to a split directory
+    rn = Path(real["rootname"]).name
+    for sib in (rn + "2", rn + "_backup", rn + ".old"):
+        for up in ("..", "../..", "train/../..", "a/../../.."):
+            for tail in ("", "/x.fb", "/shards_list.json", "/train",
+                         "/train/shards_list.json"):
+                out.append(f"{up}/{sib}{tail}")
     # paths through the real names that normalise inside the root
     for r in real.values():
         p = Path(r)
